@@ -43,8 +43,8 @@ var checks = map[string]*Check{
 			{World: "C01", Race: true, Weight: 3},
 			{World: "C01/faulty", Weight: 2},
 		},
-		Probes:      []string{"concurrent_clients"},
-		Rule:        "Workload: 2..8 (thorough: ..48) concurrent clients with unique tokens in path, query, header and body; sizes across buffer boundaries; backend latency per request; oracle compares status/header/body/trailer against the client's own token and counts backend invocations per token.",
+		Probes:      []string{"concurrent_clients", "keepalive_followup_request"},
+		Rule:        "Workload: 2..8 (thorough: ..48) concurrent clients with unique tokens in path, query, header and body; sizes across buffer boundaries; backend latency per request; a quarter of the clients send a follow-up request on their kept-alive connection; oracle compares status/header/body/trailer against the client's own token and counts backend invocations per token.",
 		Assumptions: commonAssumptions,
 		RealStub:    coreRealStub,
 	},
@@ -117,8 +117,8 @@ var checks = map[string]*Check{
 	},
 	"C11": {
 		Legs:        []Leg{{World: "C11", Weight: 3}, {World: "C11", Race: true, Weight: 1}},
-		Probes:      []string{"both_directions", "idle_poll_408", "data_post_more_than_10", "poll_returned_more_than_10", "injection_applied"},
-		Rule:        "Harness shim client (protocol of the injected script: open, then one data post and one poll outstanding at a time, close) -> real proxy -> real agent (shim handlers, relay goroutines) -> real gorilla websocket backend. 0..30 (thorough ..120) messages per direction: ASCII/UTF-8 text, arbitrary binary, JSON documents; sizes 0..40 KB (thorough ..1 MiB); batches of 1..25 messages per data post; pauses up to 21 s (idle polls end in 408); protocol version 0/1/absent; header injection on in a third of the runs. Two FIFO reference queues compared at quiescence.",
+		Probes:      []string{"both_directions", "idle_poll_408", "data_post_more_than_10", "poll_returned_more_than_10", "injection_applied", "concurrent_sessions"},
+		Rule:        "Harness shim client (protocol of the injected script: open, then one data post and one poll outstanding at a time, close) -> real proxy -> real agent (shim handlers, relay goroutines) -> real gorilla websocket backend. one or two concurrent sessions; 0..30 (thorough ..120) messages per direction and session: ASCII/UTF-8 text, arbitrary binary, JSON documents; sizes 0..40 KB (thorough ..1 MiB); batches of 1..25 messages per data post; pauses up to 21 s (idle polls end in 408); protocol version 0/1/absent; header injection on in a third of the runs. Two FIFO reference queues compared at quiescence.",
 		Assumptions: commonAssumptions,
 		RealStub:    coreRealStub,
 	},
